@@ -121,7 +121,7 @@ Arguments RByLabels {P} rows n.
    model-side computation, they are covered by the snapshots) *)
 Inductive zobs :=
 | ZBool (b : bool) | ZCounts (l : list (nat * nat))
-| ZTable (rows : list (nat * nat)) (txt : list (list Z)) | ZNothing
+| ZTable (rows : list (nat * nat)) (nsections : nat) | ZNothing
 | ZBools (l : list bool) | ZNat (n : nat) | ZSkip.
 
 Definition no_render : nat -> unit -> unit := fun _ _ => tt.
@@ -131,20 +131,14 @@ Definition zresult := result (P := unit).
 Definition zstep nstat := step nstat no_render no_render_stats no_render_rows.
 Definition zrun nstat := run nstat no_render no_render_stats no_render_rows.
 
-Definition sortedZ (l : list Z) : list Z :=
-  fold_right (fun x acc => let fix ins (l : list Z) := match l with
-                                                    | [] => [x]
-                                                    | y :: r => if Z.leb x y then x :: l else y :: ins r
-                                                    end in ins acc) [] l.
-
 Definition obs_match (m : out (O := unit)) (i : zobs) : bool :=
   match m, i with
   | _, ZSkip => true
   | VBool a, ZBool b => Bool.eqb a b
   | VCounts a, ZCounts b => list_eqb (fun x y => Nat.eqb (fst x) (fst y) && Nat.eqb (snd x) (snd y)) a b
-  | VTable _ rows txt, ZTable irows itxt =>
+  | VTable _ rows txt, ZTable irows nsections =>
       list_eqb (fun x y => Nat.eqb (fst x) (fst y) && Nat.eqb (snd x) (snd y)) rows irows
-      && list_eqb (list_eqb Z.eqb) (map sortedZ txt) itxt
+      && Nat.eqb (length txt) nsections
   | VNothing, ZNothing => true
   | VBools a, ZBools b => list_eqb Bool.eqb a b
   | VNat a, ZNat b => Nat.eqb a b
